@@ -106,8 +106,8 @@ fn chain_forms() -> Vec<(usize, Option<usize>, bool)> {
     v
 }
 fn n_chain() -> u64 {
-    // defs(16) x pub h1,h2,h3 (8) x pub b,c (4) x order (2) x forms
-    16 * 8 * 4 * 2 * chain_forms().len() as u64
+    // staging variants (3) x defs(16) x pub h1,h2,h3 (8) x pub b,c (4) x order (2) x forms
+    3 * 16 * 8 * 4 * 2 * chain_forms().len() as u64
 }
 struct Chain {
     src: String,
@@ -128,12 +128,17 @@ fn build_chain(mut k: u64) -> Chain {
     let pub_h = [true, k & 1 != 0, k & 2 != 0, k & 4 != 0];
     k /= 8;
     let defs = [k & 1 != 0, k & 2 != 0, k & 4 != 0, k & 8 != 0];
+    k /= 16;
+    // 0: plain program; 1: a `#stage(macro)` section between the definitions (the rest of the program is a stage
+    // section); 2: the reference itself is quoted and spliced back
+    let staging = k % 3;
     // the reference
     let reference = match target {
         None => "h()".to_string(),
         Some(t) if relative => format!("{}::h()", MODS[probe + 1..=t].join("::")),
         Some(t) => format!("{}::h()", MODS[1..=t].join("::")),
     };
+    let reference = if staging == 2 { format!("$(`({reference}))") } else { reference };
     let (denotes, admissible) = match target {
         None => ((0..=probe).rev().find(|&l| defs[l]).map(|l| LEVEL_VALUE[l]), true),
         Some(t) => {
@@ -160,7 +165,8 @@ fn build_chain(mut k: u64) -> Chain {
     let root_h = if defs[0] { format!("fn h() {{\n  {}\n}}\n", crate::lang::fmt_num(LEVEL_VALUE[0])) } else { String::new() };
     let dsp = format!("fn dsp() {{\n  {}\n}}\n", if probe == 0 { reference.clone() } else { "a::p()".to_string() });
     let tree = level(0, &defs, &pub_h, &pub_mod, members_first, probe, &reference);
-    let src = if members_first { format!("{root_h}{tree}{dsp}") } else { format!("{tree}{root_h}{dsp}") };
+    let section = if staging == 1 { "#stage(macro)\nfn mm(c) {\n  c\n}\n#stage(main)\n" } else { "" };
+    let src = if members_first { format!("{root_h}{section}{tree}{dsp}") } else { format!("{section}{tree}{root_h}{dsp}") };
     let kind = match (target, relative) {
         (None, _) => "unqualified",
         (_, true) => "relative_path",
@@ -186,6 +192,7 @@ fn build_chain(mut k: u64) -> Chain {
     if target.is_none() && defs[probe + 1..].iter().any(|d| *d) {
         tags.push("name_also_defined_in_a_descendant".into());
     }
+    tags.push(format!("chain_staging_{}", ["none", "stage_section", "reference_spliced"][staging as usize]));
     tags.push(if members_first { "members_before_nested_module".into() } else { "members_after_nested_module".into() });
     Chain { src, denotes, admissible, form: format!("{kind} `{reference}` from level {probe} ({})", if probe == 0 { "root".to_string() } else { MODS[1..=probe].join("::") }), tags }
 }
@@ -215,6 +222,7 @@ fn run_chain(tier: Tier, k: u64) -> CaseOut {
             }
         }
     }
+    let stag = c.tags.iter().find(|t| t.starts_with("chain_staging_")).cloned().unwrap_or_default();
     CaseOut {
         key: fnv(c.src.as_bytes()),
         nontrivial: true,
@@ -222,7 +230,7 @@ fn run_chain(tier: Tier, k: u64) -> CaseOut {
         fails,
         tags: c.tags,
         repr: json!({"form": c.form, "denotes": c.denotes, "admissible_by_reference_rule": c.admissible, "source": c.src}),
-        counters: vec![(if must_reject { "must_reject".to_string() } else { "may_accept".to_string() }, 1), ("chain_cases".into(), 1), (if outcome.starts_with('A') && !must_reject { "chain_accepted_and_judged".to_string() } else { "chain_other".to_string() }, 1)],
+        counters: vec![(if must_reject { "must_reject".to_string() } else { "may_accept".to_string() }, 1), ("chain_cases".into(), 1), (stag, 1), (if outcome.starts_with('A') && !must_reject { "chain_accepted_and_judged".to_string() } else { "chain_other".to_string() }, 1)],
     }
 }
 
